@@ -173,6 +173,7 @@ type stressCase struct {
 	NoRetrans   bool  `json:"no_retransmit,omitempty"`
 	FailEvery   int   `json:"fail_every,omitempty"`
 	Yields      []int `json:"yields,omitempty"`
+	GateYields  []int `json:"gate_yields,omitempty"` // perturbation at the control points (agent tap, connection write)
 	Repeat      int   `json:"repeat,omitempty"`
 }
 
@@ -193,6 +194,7 @@ func runStress(c stressCase, prop string) (overlap bool, err error) {
 	if werr != nil {
 		return false, werr
 	}
+	defer w.Release()
 	var written atomic.Int64
 	var serial atomic.Int64
 	w.Conn.AfterWrite = func(b []byte, err error) {
@@ -207,6 +209,24 @@ func runStress(c stressCase, prop string) (overlap bool, err error) {
 			id := int(b[18])<<8 | int(b[19])
 			w.Conn.Enqueue(response(id, int(serial.Add(1)), 0))
 		}
+	}
+	if len(c.GateYields) > 0 {
+		// perturbed interleavings: goroutines yield / pause at the points where the client calls out
+		// between its critical sections (agent Start/Stop/Process/Collect/Close, connection Write)
+		var gate atomic.Int64
+		perturb := func() {
+			n := c.GateYields[int(gate.Add(1))%len(c.GateYields)]
+			switch {
+			case n >= 5:
+				time.Sleep(time.Duration(n) * 10 * time.Microsecond)
+			default:
+				for k := 0; k < n; k++ {
+					runtime.Gosched()
+				}
+			}
+		}
+		w.Agent.Before = func(string, [12]byte) { perturb() }
+		w.Conn.OnWrite = func([]byte) { perturb() }
 	}
 	stop := make(chan struct{})
 	var crashed atomic.Value // first panic raised by the library on a harness goroutine
@@ -436,6 +456,9 @@ func genStress(rt *rapid.T) stressCase {
 		NoRetrans:   rapid.IntRange(0, 3).Draw(rt, "noRetransmit") == 0,
 		FailEvery:   rapid.SampledFrom([]int{0, 0, 5, 11}).Draw(rt, "failEvery"),
 		Yields:      rapid.SliceOfN(rapid.IntRange(0, 4), 1, 8).Draw(rt, "yields"),
+	}
+	if rapid.Bool().Draw(rt, "perturbGates") {
+		c.GateYields = rapid.SliceOfN(rapid.IntRange(0, 8), 1, 12).Draw(rt, "gateYields")
 	}
 	c.CloseAfter = rapid.IntRange(0, c.Starters*c.PerStarter).Draw(rt, "closeAfter")
 
